@@ -26,8 +26,10 @@ import (
 	"github.com/google/martian/v3"
 	mlog "github.com/google/martian/v3/log"
 	"github.com/google/martian/v3/mitm"
+	"github.com/google/martian/v3/trafficshape"
 
 	"verif/harness/internal/core"
+	"verif/harness/internal/golib"
 )
 
 const ioTimeout = 3 * time.Second
@@ -177,10 +179,21 @@ func hijackReply(conn net.Conn, brw *bufio.ReadWriter) {
 }
 
 func connKind(c net.Conn) string {
+	if ts, ok := c.(*trafficshape.Conn); ok { // a shaped listener wraps what it hands out
+		c = ts.GetWrappedConn()
+	}
 	if _, ok := c.(*tls.Conn); ok {
 		return "tls"
 	}
 	return "raw"
+}
+
+// cloningRT behaves like the many RoundTripper wrappers (oauth2, tracing) that send a clone of the
+// request: the response's Request field is then not the request the proxy handed over.
+type cloningRT struct{ base http.RoundTripper }
+
+func (c cloningRT) RoundTrip(req *http.Request) (*http.Response, error) {
+	return c.base.RoundTrip(req.Clone(req.Context()))
 }
 
 func (w *world) reqmod() martian.RequestModifier {
@@ -521,6 +534,7 @@ type Ex struct {
 	originAddr    string
 	originTLSAddr string
 	sessions      []string
+	shaped        *trafficshape.Listener
 }
 
 var caseCounter int
@@ -558,6 +572,9 @@ func listen() net.Listener {
 }
 
 func (e *Ex) Do(op string) core.Result {
+	if o, ok := golib.Do(op); ok {
+		return core.Result{Impl: o}
+	}
 	toks := strings.Fields(op)
 	switch toks[0] {
 	case "conn":
@@ -608,7 +625,7 @@ func (e *Ex) start() {
 	p.SetTimeout(30 * time.Second)
 	p.SetRequestModifier(e.w.reqmod())
 	p.SetResponseModifier(e.w.resmod())
-	if e.conn["listener"] == "mitm" {
+	if e.conn["listener"] == "mitm" || e.conn["listener"] == "shapedmitm" {
 		p.SetMITM(mitmC)
 		// upstream TLS must trust the harness origin; keep the default transport's other settings
 		tr := p.GetRoundTripper().(*http.Transport).Clone()
@@ -636,9 +653,26 @@ func (e *Ex) start() {
 		}
 		return net.DialTimeout(network, addr, 2*time.Second)
 	})
+	if e.conn["rt"] == "clone" {
+		p.SetRoundTripper(cloningRT{p.GetRoundTripper()})
+	}
 	e.proxy = p
 	e.pl = listen()
-	go p.Serve(e.pl)
+	var sl net.Listener = e.pl
+	switch e.conn["listener"] {
+	case "tls": // transparent TLS: the proxy's own listener terminates TLS with forged certificates
+		tr := p.GetRoundTripper()
+		if t, ok := tr.(*http.Transport); ok {
+			t = t.Clone()
+			t.TLSClientConfig = &tls.Config{RootCAs: caPool}
+			p.SetRoundTripper(t)
+		}
+		sl = tls.NewListener(e.pl, mitmC.TLS())
+	case "shaped", "shapedmitm":
+		e.shaped = trafficshape.NewListener(e.pl)
+		sl = e.shaped
+	}
+	go p.Serve(sl)
 }
 
 type clientConn struct {
@@ -690,6 +724,14 @@ func (e *Ex) runScenario() core.Result {
 	}
 	defer raw.Close()
 	cc := &clientConn{c: raw, br: bufio.NewReader(raw)}
+	if e.conn["listener"] == "tls" {
+		tc := tls.Client(raw, &tls.Config{RootCAs: caPool, ServerName: "proxy.test"})
+		tc.SetDeadline(time.Now().Add(ioTimeout))
+		if err := tc.Handshake(); err != nil {
+			return core.Result{Impl: "tls-listener-handshake-failed", Fail: err.Error(), Sig: "c05:handshake"}
+		}
+		cc = &clientConn{c: tc, br: bufio.NewReader(tc)}
+	}
 	alive := true
 	pipe := e.conn["mode"] == "pipe"
 	hijacked := false
@@ -699,8 +741,8 @@ func (e *Ex) runScenario() core.Result {
 		for _, id := range e.ids {
 			all.Write(e.buildRequest(id, w.items[id]))
 		}
-		raw.SetWriteDeadline(time.Now().Add(ioTimeout))
-		go raw.Write(all.Bytes())
+		cc.c.SetWriteDeadline(time.Now().Add(ioTimeout))
+		go cc.c.Write(all.Bytes())
 		for _, id := range e.ids {
 			it := w.items[id]
 			res, body, berr := cc.readResponse(it.s("m", "GET"))
